@@ -75,7 +75,7 @@ pub fn make_crypto(node_id: [u8; 16], cfg: &CryptoConfig, speeds: [f32; 3], hook
     io::guarded(|| Crypto::new(node_id, cfg)).map_err(|p| format!("panic: {}", p))?.map_err(|e| format!("{}", e))
 }
 
-fn payload_for(name: char, attempt: u32) -> Vec<u8> {
+pub fn payload_for(name: char, attempt: u32) -> Vec<u8> {
     // unique per attempt, with a tail so that "exactly the payload offered" is a real comparison
     let mut v = vec![name as u8];
     v.extend_from_slice(&attempt.to_be_bytes());
